@@ -423,7 +423,7 @@ func copyObs(u *universe, v core.Value, clone bool) (cls int, bits int) {
 	if clone {
 		cl, ok := v.(core.Cloneable)
 		if !ok {
-			return len(u.vals), 7
+			return len(u.vals), 15
 		}
 		c = cl.Clone()
 	} else {
@@ -458,7 +458,53 @@ func copyObs(u *universe, v core.Value, clone bool) (cls int, bits int) {
 	if CoqValue(v) == before && h2 == h0 {
 		bits |= 4
 	}
+	if hashFollowsContent(v) {
+		bits |= 8
+	}
 	return
+}
+
+// hashFollowsContent: hash a private deep copy, change a container nested in it
+// in place (the Go API allows that), hash again: the second hash must be the hash
+// of a freshly built value with the new content (no stale cached hash anywhere on
+// the path), and so must the hash of a container two levels up.
+func hashFollowsContent(v core.Value) bool {
+	cl, ok := v.(core.Cloneable)
+	if !ok {
+		return true
+	}
+	c := cl.Clone()
+	outer := values.NewArrayWith(c) // one more level: [c]
+	safeHash(c)
+	safeHash(outer)
+	var inner core.Value
+	switch cv := c.(type) {
+	case *values.Array:
+		cv.ForEach(func(x core.Value, _ int) bool {
+			if _, ok := x.(core.Cloneable); ok && x.Type().String() != "none" && inner == nil {
+				inner = x
+			}
+			return true
+		})
+	case *values.Object:
+		keys, vs := objMembers(cv)
+		_ = keys
+		for _, x := range vs {
+			if _, ok := x.(core.Cloneable); ok && x.Type().String() != "none" && inner == nil {
+				inner = x
+			}
+		}
+	}
+	if inner == nil {
+		return true
+	}
+	mutate(inner)
+	h1, ok1 := safeHash(c)
+	o1, ok2 := safeHash(outer)
+	fresh := c.(core.Cloneable).Clone()
+	hf, ok3 := safeHash(fresh)
+	of, ok4 := safeHash(values.NewArrayWith(fresh))
+	return ok1 && ok2 && ok3 && ok4 && h1 == hf && o1 == of
 }
 
 func mutate(x core.Value) {
